@@ -18,7 +18,8 @@ from aiocoap import Message, GET, PUT, NON, CON, error, resource
 PROP = "C18"
 LEVEL = "model_checking"
 RULE = ("E2: Context.shutdown() injected after every step of the default run (K=1) and of every one-deviation run (K=2; drop, "
-        "duplicate, reorder) of ten busy scenarios, plain and with the loop stalling for 0.15 s / 3.5 s after the 1st..6th loop iteration "
+        "duplicate, reorder) of thirteen busy scenarios (among them an observation whose first notification is block-wise and observations whose "
+        "consumer subscribes only after the shutdown), plain and with the loop stalling for 0.15 s / 3.5 s after the 1st..6th loop iteration "
         "of the shutdown (timers due in between run late), followed by a full drain; distinct = distinct schedule")
 ASSUMPTIONS = [
     "SHUTDOWN_TIMEOUT = 3 s (numbers/constants.py documentation); EXCHANGE_LIFETIME = 247 s",
@@ -30,7 +31,8 @@ PEER = ("2001:db8::1", 5683)     # its peer (server or client role)
 OCTX = ("2001:db8::b", 40000)    # bystander context
 OSRV = ("2001:db8::2", 5683)     # bystander's server
 
-SCENARIOS = ("await-ack", "await-separate", "bw-up", "bw-down", "obs-client", "obs-server", "backlog", "slow-handler", "slow-twice", "dedup-alive")
+SCENARIOS = ("await-ack", "await-separate", "bw-up", "bw-down", "obs-client", "obs-server", "backlog", "slow-handler", "slow-twice", "dedup-alive",
+             "obs-client-bw", "obs-client-late", "obs-client-late-plain")
 STALLS = [(j, dt) for j in (1, 2, 3, 4, 6) for dt in (0.15, 3.5)]   # the loop stalls for dt seconds after the j-th iteration of the shutdown
 
 
@@ -60,6 +62,28 @@ class RawClient(Peer):
     def on_message(self, src, msg, dg):
         if msg[0] == rc.CON and msg[1] >= 64:
             self.send(src, (rc.ACK, 0, msg[2], b"", [], b""))
+
+
+class ObsBlockServer(Peer):
+    """An observable resource whose 40-byte representation goes out in 16-byte blocks: the registration is answered with block 0
+    (Observe 1, more to come); the rest is fetched by plain Block2 requests."""
+    REP = bytes(range(40))
+
+    def on_message(self, src, msg, dg):
+        mtype, code, mid, token, options, payload = msg
+        if mtype == rc.CON and code >= 64:
+            return self.send(src, (rc.ACK, 0, mid, b"", [], b""))
+        if not (1 <= code < 32):
+            return
+        b2 = rc.opt(options, 23)
+        num = rc.unblock(b2)[0] if b2 is not None else 0
+        chunk = self.REP[num * 16:(num + 1) * 16]
+        more = (num + 1) * 16 < len(self.REP)
+        opts = [(4, b"E1"), (23, rc.block(num, more, 0))]
+        if rc.opt(options, 6) is not None and num == 0:
+            opts.append((6, rc.uint(1)))
+        m = (rc.ACK if mtype == rc.CON else rc.NON, 69, mid if mtype == rc.CON else self.mid(), token, rc.sorted_options(opts), chunk)
+        self.send(src, m)
 
 
 class ShutScenario(NetScenario):
@@ -123,8 +147,10 @@ class ShutScenario(NetScenario):
             w.add_peer(RefBlockServer("peer", *PEER, representation=b"ok", szx=0))
         elif kind == "bw-down":
             w.add_peer(RefBlockServer("peer", *PEER, representation=bytes(range(70)), szx=0))
-        elif kind == "obs-client":
+        elif kind in ("obs-client", "obs-client-late", "obs-client-late-plain"):
             st.notifier = w.add_peer(Notifier("peer", *PEER))
+        elif kind == "obs-client-bw":
+            w.add_peer(ObsBlockServer("peer", *PEER))
         else:
             st.raw = w.add_peer(RawClient("peer", *PEER))
         # --- bystander
@@ -147,12 +173,17 @@ class ShutScenario(NetScenario):
                 st.futs.append(("put", st.v.ctx.request(req(st.v, PEER, code=PUT, uri_path=["x"], payload=bytes(range(60)))).response))
             elif kind == "bw-down":
                 st.futs.append(("get", st.v.ctx.request(req(st.v, PEER, code=GET, uri_path=["x"])).response))
-            elif kind == "obs-client":
+            elif kind in ("obs-client", "obs-client-bw"):
                 r = st.v.ctx.request(req(st.v, PEER, code=GET, uri_path=["o"], observe=0))
                 st.futs.append(("obs-first", r.response))
                 st.obsreq = r
                 r.observation.register_errback(lambda e: st.obs_events.append(e))
                 r.observation.register_callback(lambda m: None)
+            elif kind in ("obs-client-late", "obs-client-late-plain"):
+                # the application awaits the first response and only then (here: after the shutdown) turns to the observation
+                r = st.v.ctx.request(req(st.v, PEER, code=GET, uri_path=["o"], observe=0), **({"handle_blockwise": False} if kind.endswith("plain") else {}))
+                st.futs.append(("obs-first", r.response))
+                st.obsreq = r
             elif kind == "obs-server":
                 st.world.emit(PEER, V, rc.encode((rc.CON, 1, 0x5001, b"\x0b", [(6, b""), (11, b"obs")], b"")))
             elif kind in ("slow-handler", "slow-twice"):
@@ -160,7 +191,7 @@ class ShutScenario(NetScenario):
             elif kind == "dedup-alive":
                 st.world.emit(PEER, V, rc.encode((rc.CON, 1, 0x5001, b"\x0b", [(11, b"fast")], b"")))
         st.script.append(("start", start))
-        if kind == "obs-client":
+        if kind in ("obs-client", "obs-client-late", "obs-client-late-plain"):
             st.script.append(("first response", lambda st: st.notifier.first_response(1, b"v1")))
             st.script.append(("notify", lambda st: st.notifier.notify(2, b"v2", con=True)))
             st.script.append(("notify", lambda st: st.notifier.notify(3, b"v3", con=False)))
@@ -181,7 +212,7 @@ class ShutScenario(NetScenario):
         w = st.world
         st.shut_at = w.loop.time()
         st.pending_at_shut = [(n, f) for n, f in st.futs if not f.done()]
-        st.obs_alive_at_shut = self.kind == "obs-client" and not st.obsreq.observation.cancelled
+        st.obs_alive_at_shut = self.kind.startswith("obs-client") and not st.obsreq.observation.cancelled
         st.handler_running = st.handler_log.count("start") - st.handler_log.count("done") - st.handler_log.count("cancelled")
         st.cancelled_before = st.handler_log.count("cancelled")
         # an application that re-issues a request the moment the outstanding one fails (lands inside the shutdown window)
@@ -236,6 +267,32 @@ class ShutScenario(NetScenario):
                 st.violations.append(Violation("request-ended-with-non-library-error", "aiocoap.error.Error",
                                                "cancelled" if f.cancelled() else core.exc_desc(f.exception()) if f.exception() else "result",
                                                "tokenmanager.py:request", {}, key="retry-kind"))
+        if st.obs_alive_at_shut and "late" in self.kind:
+            # a consumer that subscribes only now still learns how the observation ended: through the errback and the iterator
+            ob = st.obsreq.observation
+            try:
+                ob.register_callback(lambda m: None)
+                ob.register_errback(lambda e: st.obs_events.append(e))
+            except Exception as e:
+                st.violations.append(Violation("late-subscriber", "the library error that ended the observation", core.exc_desc(e),
+                                               core.site_of(e), {}, key="register:" + type(e).__name__))
+
+            async def consume():
+                async for _ in ob:
+                    pass
+            ct = w.loop.create_task(consume())
+            w.loop.settle()
+            if not ct.done():
+                ct.cancel()
+                w.loop.settle()
+                st.violations.append(Violation("late-subscriber", "iteration ends with the library error", "iterator never ends",
+                                               "protocol.py:ClientObservation.__aiter__", {}, key="iter-hang"))
+            elif ct.exception() is None and not ct.cancelled() and st.obs_events and isinstance(st.obs_events[-1], (error.NotObservable, error.ObservationCancelled)):
+                pass    # by design the iterator ends quietly when the observation ended as "not observable (any more)"
+            elif ct.cancelled() or not isinstance(ct.exception(), error.Error):
+                st.violations.append(Violation("late-subscriber", "iteration ends with a library error",
+                                               "cancelled" if ct.cancelled() else core.exc_desc(ct.exception()) if ct.exception() else "ended silently",
+                                               "protocol.py:ClientObservation.__aiter__", {}, key="iter-kind"))
         if st.obs_alive_at_shut:
             if len(st.obs_events) != 1 or not isinstance(st.obs_events[0], error.Error):
                 st.violations.append(Violation("observation-not-terminated", "one errback with a library error",
